@@ -1,0 +1,353 @@
+//! Verification hooks (cargo feature `verif_hooks`, off by default).
+//!
+//! Purely additive: serialises the artefacts that code generation consumes (leaves, the raw
+//! regex-automata DFA, the final state graph, the graph errors and the compile errors) so that an
+//! external checker can inspect them, and re-exports a few private front-end functions.
+//!
+//! The serialiser deliberately uses only public `regex_automata::dfa::Automaton` methods and the
+//! `Graph` accessors; it does not reuse any of the passes of `Graph::new`.
+
+use std::cell::RefCell;
+use std::fmt::Write;
+
+use proc_macro2::TokenStream;
+use regex_automata::dfa::Automaton;
+use regex_automata::Anchored;
+use regex_syntax::hir::{Class, Hir, HirKind, Look};
+
+use crate::graph::{Graph, GraphError};
+use crate::leaf::{Leaf, VariantKind};
+use crate::parser::nested_debug;
+
+thread_local! {
+    static CURRENT: RefCell<String> = const { RefCell::new(String::new()) };
+    static LAST: RefCell<Option<String>> = const { RefCell::new(None) };
+}
+
+/// Take the capture of the last `generate()` call made on this thread.
+pub fn take() -> Option<String> {
+    LAST.with(|l| l.borrow_mut().take())
+}
+
+fn hex(bytes: &[u8]) -> String {
+    let mut s = String::with_capacity(bytes.len() * 2);
+    for b in bytes {
+        write!(s, "{b:02x}").unwrap();
+    }
+    if s.is_empty() {
+        s.push('-');
+    }
+    s
+}
+
+fn look_name(l: &Look) -> &'static str {
+    match l {
+        Look::Start => "Start",
+        Look::End => "End",
+        Look::StartLF => "StartLF",
+        Look::EndLF => "EndLF",
+        Look::StartCRLF => "StartCRLF",
+        Look::EndCRLF => "EndCRLF",
+        Look::WordAscii => "WordAscii",
+        Look::WordAsciiNegate => "WordAsciiNegate",
+        Look::WordUnicode => "WordUnicode",
+        Look::WordUnicodeNegate => "WordUnicodeNegate",
+        Look::WordStartAscii => "WordStartAscii",
+        Look::WordEndAscii => "WordEndAscii",
+        Look::WordStartUnicode => "WordStartUnicode",
+        Look::WordEndUnicode => "WordEndUnicode",
+        Look::WordStartHalfAscii => "WordStartHalfAscii",
+        Look::WordEndHalfAscii => "WordEndHalfAscii",
+        Look::WordStartHalfUnicode => "WordStartHalfUnicode",
+        Look::WordEndHalfUnicode => "WordEndHalfUnicode",
+    }
+}
+
+/// Print a `Hir` as an s-expression.
+pub fn hir_sexpr(hir: &Hir, out: &mut String) {
+    match hir.kind() {
+        HirKind::Empty => out.push('E'),
+        HirKind::Literal(lit) => {
+            write!(out, "(L {})", hex(&lit.0)).unwrap();
+        }
+        HirKind::Class(Class::Unicode(c)) => {
+            out.push_str("(CU");
+            for r in c.ranges() {
+                write!(out, " {}-{}", r.start() as u32, r.end() as u32).unwrap();
+            }
+            out.push(')');
+        }
+        HirKind::Class(Class::Bytes(c)) => {
+            out.push_str("(CB");
+            for r in c.ranges() {
+                write!(out, " {}-{}", r.start(), r.end()).unwrap();
+            }
+            out.push(')');
+        }
+        HirKind::Look(l) => {
+            write!(out, "(K {})", look_name(l)).unwrap();
+        }
+        HirKind::Repetition(r) => {
+            write!(
+                out,
+                "(R {} {} {} ",
+                r.min,
+                r.max.map(|m| m.to_string()).unwrap_or_else(|| "inf".into()),
+                if r.greedy { "g" } else { "l" }
+            )
+            .unwrap();
+            hir_sexpr(&r.sub, out);
+            out.push(')');
+        }
+        HirKind::Capture(c) => {
+            out.push_str("(P ");
+            hir_sexpr(&c.sub, out);
+            out.push(')');
+        }
+        HirKind::Concat(hs) => {
+            out.push_str("(C");
+            for h in hs {
+                out.push(' ');
+                hir_sexpr(h, out);
+            }
+            out.push(')');
+        }
+        HirKind::Alternation(hs) => {
+            out.push_str("(A");
+            for h in hs {
+                out.push(' ');
+                hir_sexpr(h, out);
+            }
+            out.push(')');
+        }
+    }
+}
+
+fn with_current(f: impl FnOnce(&mut String)) {
+    CURRENT.with(|c| f(&mut c.borrow_mut()));
+}
+
+/// Start a capture (called at the top of `generate`).
+pub(crate) fn begin(name: &str) {
+    with_current(|c| {
+        c.clear();
+        writeln!(c, "def {name}").unwrap();
+    });
+}
+
+pub(crate) fn leaves(utf8_mode: bool, leaves: &[Leaf]) {
+    with_current(|c| {
+        writeln!(c, "utf8 {}", utf8_mode as u8).unwrap();
+        writeln!(c, "codegen {}", if cfg!(feature = "state_machine_codegen") { "sm" } else { "tc" }).unwrap();
+        for (i, leaf) in leaves.iter().enumerate() {
+            let kind = match &leaf.kind {
+                VariantKind::Unit(id) => format!("unit:{id}"),
+                VariantKind::Value(id, _) => format!("value:{id}"),
+                VariantKind::Skip => "skip".to_string(),
+            };
+            let mut h = String::new();
+            hir_sexpr(leaf.pattern.hir(), &mut h);
+            let props = leaf.pattern.hir().properties();
+            writeln!(
+                c,
+                "leaf {i} {kind} prio={} cb={} lit={} isutf8={} minlen={} default_prio={} greedy_all={} src={} hir={h}",
+                leaf.priority,
+                leaf.callback.is_some() as u8,
+                leaf.pattern.to_string().starts_with("#[token") as u8,
+                props.is_utf8() as u8,
+                props.minimum_len().map(|n| n as i64).unwrap_or(-1),
+                leaf.pattern.priority(),
+                leaf.pattern.check_for_greedy_all() as u8,
+                hex(leaf.pattern.source().as_bytes()),
+            )
+            .unwrap();
+        }
+    });
+}
+
+pub(crate) fn graph_build_error(msg: &str) {
+    with_current(|c| {
+        writeln!(c, "builderr {}", hex(msg.as_bytes())).unwrap();
+    });
+}
+
+/// Serialise the raw DFA and the final graph.
+pub(crate) fn graph(graph: &Graph) {
+    let mut c = String::new();
+    let dfa = graph.dfa();
+    match dfa.universal_start_state(Anchored::Yes) {
+        None => {
+            writeln!(c, "dfa nostart").unwrap();
+        }
+        Some(start) => {
+            // Reachable states, explored with public Automaton methods only.
+            let mut seen = std::collections::BTreeSet::new();
+            let mut stack = vec![start];
+            seen.insert(start.as_usize());
+            let mut order = Vec::new();
+            while let Some(s) = stack.pop() {
+                order.push(s);
+                for b in 0..=255u8 {
+                    let n = dfa.next_state(s, b);
+                    if seen.insert(n.as_usize()) {
+                        stack.push(n);
+                    }
+                }
+                let n = dfa.next_eoi_state(s);
+                if seen.insert(n.as_usize()) {
+                    stack.push(n);
+                }
+            }
+            order.sort_unstable_by_key(|s| s.as_usize());
+            writeln!(
+                c,
+                "dfa start={} has_empty={} states={}",
+                start.as_usize(),
+                dfa.has_empty() as u8,
+                order.len()
+            )
+            .unwrap();
+            for s in order {
+                let mut line = format!("dstate {} dead={} match=", s.as_usize(), dfa.is_dead_state(s) as u8);
+                if dfa.is_match_state(s) {
+                    let n = dfa.match_len(s);
+                    for i in 0..n {
+                        if i > 0 {
+                            line.push(',');
+                        }
+                        write!(line, "{}", dfa.match_pattern(s, i).as_usize()).unwrap();
+                    }
+                    if n == 0 {
+                        line.push('-');
+                    }
+                } else {
+                    line.push('-');
+                }
+                write!(line, " eoi={} trans=", dfa.next_eoi_state(s).as_usize()).unwrap();
+                // maximal runs of equal targets
+                let mut b = 0usize;
+                let mut first = true;
+                while b < 256 {
+                    let t = dfa.next_state(s, b as u8).as_usize();
+                    let mut e = b;
+                    while e + 1 < 256 && dfa.next_state(s, (e + 1) as u8).as_usize() == t {
+                        e += 1;
+                    }
+                    if !first {
+                        line.push(',');
+                    }
+                    first = false;
+                    write!(line, "{b}-{e}:{t}").unwrap();
+                    b = e + 1;
+                }
+                writeln!(c, "{line}").unwrap();
+            }
+        }
+    }
+
+    writeln!(
+        c,
+        "graph root={} states={}",
+        graph.root().verif_index(),
+        graph.iter_states().count()
+    )
+    .unwrap();
+    for s in graph.iter_states() {
+        let sd = graph.get_state(s);
+        let opt = |o: Option<crate::leaf::LeafId>| o.map(|l| l.0.to_string()).unwrap_or_else(|| "-".into());
+        let mut line = format!(
+            "gstate {} early={} accept={} eoi={} edges=",
+            s.verif_index(),
+            opt(sd.state_type.early),
+            opt(sd.state_type.accept),
+            sd.eoi.map(|e| e.verif_index().to_string()).unwrap_or_else(|| "-".into()),
+        );
+        if sd.normal.is_empty() {
+            line.push('-');
+        }
+        for (i, (bc, t)) in sd.normal.iter().enumerate() {
+            if i > 0 {
+                line.push(';');
+            }
+            write!(line, "{}:", t.verif_index()).unwrap();
+            for (j, r) in bc.ranges.iter().enumerate() {
+                if j > 0 {
+                    line.push('+');
+                }
+                write!(line, "{}-{}", r.start(), r.end()).unwrap();
+            }
+        }
+        writeln!(c, "{line}").unwrap();
+    }
+    for e in graph.errors() {
+        match e {
+            GraphError::NoUniversalStart => writeln!(c, "gerr nostart").unwrap(),
+            GraphError::EmptyMatch(l) => writeln!(c, "gerr empty {}", l.0).unwrap(),
+            GraphError::Disambiguation(ls) => {
+                let v: Vec<String> = ls.iter().map(|l| l.0.to_string()).collect();
+                writeln!(c, "gerr disamb {}", v.join(",")).unwrap()
+            }
+        }
+    }
+    with_current(|cur| cur.push_str(&c));
+}
+
+/// Record the compile errors about to be rendered (possibly none) and finish the capture.
+pub(crate) fn finish(messages: &[String]) {
+    with_current(|c| {
+        for m in messages {
+            writeln!(c, "cerr {}", hex(m.as_bytes())).unwrap();
+        }
+        writeln!(c, "outcome {}", if messages.is_empty() { "accepted" } else { "rejected" }).unwrap();
+        writeln!(c, "end").unwrap();
+    });
+    let text = CURRENT.with(|c| std::mem::take(&mut *c.borrow_mut()));
+    if let Ok(dir) = std::env::var("LOGOS_VERIF_DUMP") {
+        if let Some(name) = text.lines().next().and_then(|l| l.strip_prefix("def ")) {
+            let _ = std::fs::create_dir_all(&dir);
+            let _ = std::fs::write(std::path::Path::new(&dir).join(format!("{name}.cap")), &text);
+        }
+    }
+    LAST.with(|l| *l.borrow_mut() = Some(text));
+}
+
+// ---------------------------------------------------------------------------------------------
+// Front-end re-exports (private functions made callable for differential checks)
+// ---------------------------------------------------------------------------------------------
+
+/// Run the attribute tokenizer (`parser/nested.rs`) over a token stream and print the items.
+pub fn attr_items(stream: TokenStream) -> Vec<String> {
+    nested_debug(stream)
+}
+
+/// `Literal::escape` on a string / byte-string literal token stream.
+pub fn literal_escape(lit: TokenStream, literal: bool) -> Result<String, String> {
+    let lit: crate::parser::Literal = syn::parse2(lit).map_err(|e| e.to_string())?;
+    Ok(lit.escape(literal))
+}
+
+/// `Subpatterns::new` followed by `subst_subpatterns` on `pattern`.
+/// `defs` are `(name, literal tokens)` in definition order. Returns the substituted pattern (or
+/// `None`) and the error messages.
+pub fn subst(defs: &[(String, TokenStream)], utf8_mode: bool, pattern: &str) -> (Option<String>, Vec<String>) {
+    let mut errors = crate::error::Errors::default();
+    let mut v = Vec::new();
+    for (n, l) in defs {
+        let lit: crate::parser::Literal = match syn::parse2(l.clone()) {
+            Ok(l) => l,
+            Err(e) => return (None, vec![format!("literal: {e}")]),
+        };
+        v.push((syn::Ident::new(n, proc_macro2::Span::call_site()), lit));
+    }
+    let sp = crate::parser::Subpatterns::new(&v, utf8_mode, &mut errors);
+    let r = sp.subst_subpatterns(pattern, proc_macro2::Span::call_site(), &mut errors);
+    (r, errors.verif_messages())
+}
+
+/// `Pattern::compile` + `priority` + `check_for_greedy_all` + HIR s-expression.
+pub fn pattern_info(regex: &str, unicode: bool, ignore_case: bool) -> Result<(usize, bool, String), String> {
+    let p = crate::pattern::Pattern::compile(false, regex, regex.to_string(), unicode, ignore_case)?;
+    let mut h = String::new();
+    hir_sexpr(p.hir(), &mut h);
+    Ok((p.priority(), p.check_for_greedy_all(), h))
+}
